@@ -48,6 +48,9 @@ impl builtins::Command for WaitCommand {
                     // It's a job spec.
                     if let Some(job) = context.shell.jobs_mut().resolve_job_spec(id) {
                         job.wait().await?;
+
+                        // The job is done: it leaves the table, as after a plain `wait`.
+                        context.shell.jobs_mut().sweep_completed_jobs();
                     } else {
                         writeln!(
                             context.stderr(),
